@@ -40,7 +40,8 @@ def _union_marshal_lenient(prop, v):
     based leaf marshallers accept foreign values), and the wire it emits is not read back."""
     return (v.get("pos_desc") == "union" and (v.get("m_owner") is False or v.get("y_m_owner") is False)
             and v.get("kind") in ("raised", "union-fixpoint-broken", "union-no-member-accepts-wire", "fixpoint-broken",
-                                   "entrypoints-disagree", "decode-raised", "json-rejects", "not-plain"))
+                                   "entrypoints-disagree", "decode-raised", "json-rejects", "not-plain", "aliases-input",
+                                   "aliases-previous-result", "unstable", "marshal-raised"))
 
 
 @classifier("union-unmarshal-lossy-acceptor")
